@@ -623,6 +623,7 @@ func solveRace(script string, timeoutMs int, all bool) SolverResult {
 		}()
 	}
 	out := SolverResult{Status: "unknown", All: map[string]string{}}
+	graceStarted := false
 	for i := 0; i < n; i++ {
 		r := <-ch
 		out.All[r.name] = r.status
@@ -646,6 +647,14 @@ func solveRace(script string, timeoutMs int, all bool) SolverResult {
 			if !all {
 				cancel()
 				break
+			}
+			// cross-check mode: the other solvers get a short grace period to agree or disagree
+			if !graceStarted {
+				graceStarted = true
+				go func() {
+					time.Sleep(3 * time.Second)
+					cancel()
+				}()
 			}
 		} else if out.Status == "unknown" {
 			out.Raw += "--- " + r.name + ": " + r.status + "\n" + truncate(r.raw, 600) + "\n"
